@@ -22,6 +22,7 @@ RULE = (
     "compared with the list-concatenation reference model. state = (composition expression, operands used before); "
     "non-trivial = composition of >= 2 non-empty pipelines."
 )
+RULE += (" " + 'Backend stages: every sequence <= 3 of three output formats on one backend object, convert_rule(rule, format) as first call on a fresh backend, empty collections and collections whose rules all fail (finalizers run once on the empty list). Resolver: also sets of pipelines without any transformation item.')
 ASSUMPTIONS = ["reference = list concatenation of items / post-processing items / finalizers, vars later-wins, resolver order (priority, specifier)"]
 PRIOS = [10, 10, 20, 5, 10]
 BOUNDS = {"quick": dict(n=4, pre_ops=1), "thorough": dict(n=5, pre_ops=2)}
